@@ -57,7 +57,7 @@ impl Env {
         out
     }
     async fn wait_pool(&self, ctx: &ctx::Ctx, want: &BTreeSet<String>) -> bool {
-        for _ in 0..5000 {
+        for _ in 0..20000 {
             if &self.pool() == want {
                 return true;
             }
@@ -155,7 +155,10 @@ fn main() {
                                     break 'cases;
                                 }
                             };
-                            let got = d.admitted(&ctx.with_timeout(time::Duration::seconds(10))).await.unwrap_or(false);
+                            let Ok(got) = d.admitted(&ctx.with_timeout(time::Duration::seconds(30))).await else {
+                                rep.lock().unwrap().fail("harness_timeout", "neither data nor end of stream within 30 s after the handshake (undetermined, not a verdict)", tag);
+                                break 'cases;
+                            };
                             rep.lock().unwrap().evaluations += 1;
                             if got != want {
                                 let what = if got {
@@ -206,7 +209,7 @@ fn main() {
                             for it in 0..60 {
                                 let k = names[r.gen_range(0..names.len())].clone();
                                 let Ok(mut d) = env.dial(ctx, &k).await else { continue };
-                                let got = d.admitted(&ctx.with_timeout(time::Duration::seconds(10))).await.unwrap_or(false);
+                                let Ok(got) = d.admitted(&ctx.with_timeout(time::Duration::seconds(30))).await else { continue };
                                 if got {
                                     {
                                         let mut h = held.lock().unwrap();
